@@ -54,7 +54,7 @@ class _Stop(Exception):
 
 _BIN = {ast.Add: operator.add, ast.Sub: operator.sub, ast.Mult: operator.mul, ast.Div: operator.truediv, ast.FloorDiv: operator.floordiv, ast.Mod: operator.mod, ast.Pow: operator.pow, ast.LShift: operator.lshift, ast.RShift: operator.rshift, ast.BitAnd: operator.and_, ast.BitOr: operator.or_, ast.BitXor: operator.xor}
 _CMP = {ast.In: lambda a, b: a in b, ast.NotIn: lambda a, b: a not in b, ast.Eq: operator.eq, ast.NotEq: operator.ne, ast.Lt: operator.lt, ast.LtE: operator.le, ast.Gt: operator.gt, ast.GtE: operator.ge, ast.Is: operator.is_, ast.IsNot: operator.is_not}
-_FUN = {"min": min, "max": max, "round": round, "int": int, "float": float, "abs": abs, "len": len, "bool": bool}
+_FUN = {"min": min, "max": max, "round": round, "int": int, "float": float, "abs": abs, "len": len, "bool": bool, "divmod": divmod, "sum": sum, "any": any, "all": all}
 
 
 class _Cursor:
@@ -102,6 +102,9 @@ def freeze(v, depth=0):
     if isinstance(v, dict):
         return tuple(sorted((repr(k), freeze(x, depth + 1)) for k, x in v.items()))
     return repr(v)
+
+
+_PURE_TEXT_METHODS = ("count", "startswith", "endswith", "find", "rfind", "index", "split", "rsplit", "partition", "rpartition", "strip", "lstrip", "rstrip", "lower", "upper", "isdigit", "isalnum", "isascii", "decode", "encode", "replace", "splitlines", "removeprefix", "removesuffix")
 
 
 class Mini:
@@ -282,6 +285,37 @@ class Mini:
                         return getattr(obj, e.func.attr)(*args)
                     except IndexError as ex:
                         raise _PyRaise("IndexError")
+            if (self.repo.qual(self.module, e.func) or "") == "datetime.timedelta" and not e.args and all(k.arg in ("days", "hours", "minutes", "seconds") for k in e.keywords):
+                import datetime as _dt
+
+                kw = {k.arg: self.ev(k.value, env) for k in e.keywords}
+                if all(isinstance(v, (int, float)) and not isinstance(v, bool) for v in kw.values()):
+                    return _dt.timedelta(**kw)  # the checker's own value
+                raise Unsupported(f"{t}: non-numeric timedelta argument")
+            if isinstance(e.func, ast.Attribute) and e.func.attr == "total_seconds" and not e.args and not e.keywords:
+                import datetime as _dt
+
+                try:
+                    obj = self.ev(e.func.value, env)
+                except Unsupported:
+                    obj = None
+                if isinstance(obj, _dt.timedelta):
+                    return obj.total_seconds()
+            if isinstance(e.func, ast.Attribute) and e.func.attr in _PURE_TEXT_METHODS and not e.keywords:
+                # pure methods of concrete bytes / str values (the checker's own values, nothing of the repository runs)
+                try:
+                    obj = self.ev(e.func.value, env)
+                except Unsupported:
+                    obj = None
+                if isinstance(obj, (bytes, bytearray, str)):
+                    args = [self.ev(a, env) for a in e.args]
+                    try:
+                        r = getattr(obj, e.func.attr)(*args)
+                    except (ValueError, UnicodeError) as ex:
+                        raise _PyRaise(type(ex).__name__)
+                    except Exception as ex:
+                        raise Unsupported(f"{t}: {ex}")
+                    return list(r) if isinstance(r, list) else r
             if d in ("iter",) and len(e.args) == 1 and not e.keywords:
                 v = self.ev(e.args[0], env)
                 if isinstance(v, FakeObj) and getattr(v, "_ci", None) is not None and "__iter__" in v._ci.methods:
